@@ -11,8 +11,12 @@
     the responder LUN the request addressed.
 
     Send Message response that carries an embedded response (tracked bridging):
-      the same layout with cmd = 34h, completion code 00h and the embedded message as data.
-    Without embedded data (hdr, cc, chk2) it is a bare acknowledgement.
+      the same layout with netFn App + 1 (07h) AND cmd = 34h (a command is identified by both: other
+      network functions use command number 34h too, e.g. PICMG HPM.1 Get Upgrade Status 2Ch/34h),
+      both checksums valid, completion code 00h and the embedded message as data.
+    Without embedded data (hdr, cc, chk2) it is a bare acknowledgement.  It belongs to the
+    transaction whose Send Message REQUEST it answers: same sequence number, LUN 0.
+    A frame with a failing checksum is not a message at all (§13.8), whatever its header says.
 
   Self-contained on purpose (Spec/Wire.lean of C03 is written by somebody else at the same
   time); core Lean only.
